@@ -1,7 +1,521 @@
-//! C20 — correspondence harness (stub; see /verif/AGENT_GUIDE.md).
+//! C20 — proposal window: the real `ckb_proposal_table::ProposalTable` driven by random chain
+//! histories (extensions, multi-block attaches, reorganisations of every depth relative to the
+//! window, shorter-but-heavier branches, truncations, restarts, chains shorter than the window), by
+//! bounded-exhaustive short histories and by arbitrary raw op sequences.
+//!
+//! The composite ops replay, on the real table, the call sequence of `chain/src/verify.rs`
+//! (`update_proposal_table` = remove detached / insert attached / `reload_proposal_table`, then
+//! `finalize(origin, new_tip)`) and of `shared/src/shared_builder.rs::init_proposal_table`; the
+//! node-level stream (harness/hnode/src/c20.rs) checks the same lines against the real chain
+//! service. The oracle is a direct union over the current main chain kept by the harness.
+//!
+//! Protocol (model side: lean/CkbVerif/Driver/C20.lean). `<ids>` = `a,b,c` or `-`.
+//!   cfg <close> <far> | cfg default  -> ok <close> <far>     (fresh table, default view)
+//!   insert <n> <ids>                 -> new | replaced
+//!   remove <n>                       -> none | some <ids>
+//!   finalize <tip>                   -> removed=<ids> set=<ids> gap=<ids> table=<n:ids;..|->
+//!   view-reset                       -> ok
+//!   boot <ids0> <ids1> ..            -> set=.. gap=.. table=..   (start-up on a stored chain)
+//!   switch <common> <ids>*           -> removed=.. set=.. gap=.. table=..
+//!                                       (main chain becomes chain[0..=common] ++ blocks)
+//!   restart                          -> set=.. gap=.. table=..
 use crate::common::*;
+use ckb_chain_spec::consensus::{ProposalWindow, TX_PROPOSAL_WINDOW};
+use ckb_proposal_table::{ProposalTable, ProposalView};
+use ckb_types::packed::ProposalShortId;
+use ckb_types::prelude::Entity;
+use std::collections::{BTreeSet, HashSet};
 
-pub fn run(_opts: &Opts) {
-    eprintln!("C20: harness not implemented in this crate");
-    std::process::exit(2);
+fn pid(x: u64) -> ProposalShortId {
+    let mut b = [0u8; 10];
+    b[..8].copy_from_slice(&x.to_le_bytes());
+    ProposalShortId::new(b)
+}
+
+fn unpid(p: &ProposalShortId) -> u64 {
+    let b = p.as_slice();
+    u64::from_le_bytes(b[..8].try_into().unwrap())
+}
+
+fn to_set(ids: &[u64]) -> HashSet<ProposalShortId> {
+    ids.iter().map(|x| pid(*x)).collect()
+}
+
+fn show_ids<'a, I: IntoIterator<Item = &'a ProposalShortId>>(it: I) -> String {
+    let s: BTreeSet<u64> = it.into_iter().map(unpid).collect();
+    show_set(&s)
+}
+
+fn show_set(s: &BTreeSet<u64>) -> String {
+    if s.is_empty() { "-".into() } else { s.iter().map(|x| x.to_string()).collect::<Vec<_>>().join(",") }
+}
+
+fn show_list(ids: &[u64]) -> String {
+    if ids.is_empty() { "-".into() } else { ids.iter().map(|x| x.to_string()).collect::<Vec<_>>().join(",") }
+}
+
+fn parse_ids(s: &str) -> Vec<u64> {
+    if s == "-" { vec![] } else { s.split(',').map(|x| x.parse().expect("id")).collect() }
+}
+
+struct Sim {
+    w: ProposalWindow,
+    table: ProposalTable,
+    view: ProposalView,
+    /// the main chain as the store would hold it: union proposal ids per block number
+    chain: Vec<Vec<u64>>,
+}
+
+impl Sim {
+    fn new(w: ProposalWindow) -> Sim {
+        Sim { w, table: ProposalTable::new(w), view: ProposalView::default(), chain: vec![vec![]] }
+    }
+
+    fn table_str(&self) -> String {
+        let all = self.table.all();
+        if all.is_empty() {
+            return "-".into();
+        }
+        all.iter().map(|(n, ids)| format!("{}:{}", n, show_ids(ids.iter()))).collect::<Vec<_>>().join(";")
+    }
+
+    fn view_line(&self, removed: Option<&HashSet<ProposalShortId>>) -> String {
+        let r = match removed {
+            Some(r) => format!("removed={} ", show_ids(r.iter())),
+            None => String::new(),
+        };
+        format!("{}set={} gap={} table={}", r, show_ids(self.view.set().iter()), show_ids(self.view.gap().iter()), self.table_str())
+    }
+
+    fn finalize(&mut self, tip: u64) -> HashSet<ProposalShortId> {
+        let (removed, view) = self.table.finalize(&self.view, tip);
+        self.view = view;
+        removed
+    }
+
+    /// `init_proposal_table` (shared/src/shared_builder.rs) on the harness's chain
+    fn init(&mut self) {
+        let tip_number = self.chain.len() as u64 - 1;
+        let mut table = ProposalTable::new(self.w);
+        let proposal_start = tip_number.saturating_sub(self.w.farthest());
+        for bn in proposal_start..=tip_number {
+            table.insert(bn, to_set(&self.chain[bn as usize]));
+        }
+        let (_, view) = table.finalize(&ProposalView::default(), tip_number);
+        self.table = table;
+        self.view = view;
+    }
+
+    /// `update_proposal_table(fork)` + `finalize` (chain/src/verify.rs `verify_block` / `truncate`)
+    fn switch(&mut self, common: u64, branch: &[Vec<u64>]) -> HashSet<ProposalShortId> {
+        let old_tip = self.chain.len() as u64 - 1;
+        assert!(common <= old_tip);
+        let detached: Vec<u64> = (common + 1..=old_tip).collect();
+        self.chain.truncate(common as usize + 1);
+        self.chain.extend(branch.iter().cloned());
+        let attached: Vec<u64> = (common + 1..common + 1 + branch.len() as u64).collect();
+        for n in &detached {
+            self.table.remove(*n);
+        }
+        for n in &attached {
+            self.table.insert(*n, to_set(&self.chain[*n as usize]));
+        }
+        // reload_proposal_table
+        if !detached.is_empty() {
+            let detached_front = detached[0];
+            if detached_front >= 2 {
+                let common = detached_front - 1;
+                let new_tip = attached.last().copied().unwrap_or(common);
+                let proposal_start = std::cmp::max(1, (new_tip + 1).saturating_sub(self.w.farthest()));
+                for bn in proposal_start..=common {
+                    self.table.insert(bn, to_set(&self.chain[bn as usize]));
+                }
+            }
+        }
+        let new_tip = self.chain.len() as u64 - 1;
+        self.finalize(new_tip)
+    }
+}
+
+/// The property's right-hand side, computed directly from a main chain: ids of non-genesis blocks
+/// at distance close..=far (set) / < close (gap) from the next block.
+fn window_of(chain: &[Vec<u64>], w: ProposalWindow) -> (BTreeSet<u64>, BTreeSet<u64>) {
+    let next = chain.len() as u64;
+    let (mut set, mut gap) = (BTreeSet::new(), BTreeSet::new());
+    for n in 1..next {
+        let d = next - n;
+        if d >= w.closest() && d <= w.farthest() {
+            set.extend(chain[n as usize].iter().copied());
+        } else if d < w.closest() {
+            gap.extend(chain[n as usize].iter().copied());
+        }
+    }
+    (set, gap)
+}
+
+fn check_view(out: &mut Out, sim: &Sim, what: &str) {
+    let (set, gap) = window_of(&sim.chain, sim.w);
+    let iset: BTreeSet<u64> = sim.view.set().iter().map(unpid).collect();
+    let igap: BTreeSet<u64> = sim.view.gap().iter().map(unpid).collect();
+    if iset != set {
+        out.oracle_fail("set-not-window", &format!("{what}: view.set={} window={} len={}", show_set(&iset), show_set(&set), sim.chain.len()));
+    }
+    if igap != gap {
+        out.oracle_fail("gap-not-window", &format!("{what}: view.gap={} window={} len={}", show_set(&igap), show_set(&gap), sim.chain.len()));
+    }
+}
+
+fn do_switch(out: &mut Out, sim: &mut Sim, common: u64, branch: &[Vec<u64>]) {
+    let (old_set, _) = window_of(&sim.chain, sim.w);
+    let removed = sim.switch(common, branch);
+    let mut op = format!("switch {common}");
+    for b in branch {
+        op.push(' ');
+        op.push_str(&show_list(b));
+    }
+    out.op(&op, &sim.view_line(Some(&removed)));
+    check_view(out, sim, &op);
+    let (new_set, _) = window_of(&sim.chain, sim.w);
+    let left: BTreeSet<u64> = old_set.difference(&new_set).copied().collect();
+    let irem: BTreeSet<u64> = removed.iter().map(unpid).collect();
+    if irem != left {
+        out.oracle_fail("removed-not-left-window", &format!("{op}: removed={} left={}", show_set(&irem), show_set(&left)));
+    }
+}
+
+fn do_restart(out: &mut Out, sim: &mut Sim) {
+    let before_set: BTreeSet<u64> = sim.view.set().iter().map(unpid).collect();
+    let before_gap: BTreeSet<u64> = sim.view.gap().iter().map(unpid).collect();
+    sim.init();
+    out.op("restart", &sim.view_line(None));
+    check_view(out, sim, "restart");
+    let after_set: BTreeSet<u64> = sim.view.set().iter().map(unpid).collect();
+    let after_gap: BTreeSet<u64> = sim.view.gap().iter().map(unpid).collect();
+    if before_set != after_set || before_gap != after_gap {
+        out.oracle_fail("restart-changes-view", &format!("len={} before set={} gap={} after set={} gap={}", sim.chain.len(), show_set(&before_set), show_set(&before_gap), show_set(&after_set), show_set(&after_gap)));
+    }
+}
+
+fn do_boot(out: &mut Out, sim: &mut Sim, chain: Vec<Vec<u64>>) {
+    sim.chain = chain;
+    sim.init();
+    let mut op = "boot".to_string();
+    for b in &sim.chain {
+        op.push(' ');
+        op.push_str(&show_list(b));
+    }
+    out.op(&op, &sim.view_line(None));
+    if sim.chain[0].is_empty() {
+        check_view(out, sim, "boot");
+    }
+}
+
+fn cfg(out: &mut Out, close: u64, far: u64) -> Sim {
+    out.op(&format!("cfg {close} {far}"), &format!("ok {close} {far}"));
+    Sim::new(ProposalWindow(close, far))
+}
+
+fn gen_block(rng: &mut Rng, pool: u64, fresh: &mut u64) -> Vec<u64> {
+    let k = match rng.below(8) {
+        0 | 1 => 0,
+        2..=4 => 1,
+        5 | 6 => 2,
+        _ => 3,
+    };
+    let mut v = vec![];
+    for _ in 0..k {
+        if rng.chance(1, 3) {
+            *fresh += 1;
+            v.push(100 + *fresh);
+        } else {
+            v.push(rng.below(pool));
+        }
+    }
+    v
+}
+
+/// random chain history
+fn history_case(out: &mut Out, rng: &mut Rng, n_ops: usize) {
+    let wins: [(u64, u64); 8] = [(TX_PROPOSAL_WINDOW.closest(), TX_PROPOSAL_WINDOW.farthest()), (1, 2), (2, 4), (1, 1), (3, 3), (1, 5), (2, 3), (4, 6)];
+    let (close, far) = *rng.pick(&wins);
+    out.begin_case(&format!("history w={close},{far}"));
+    let mut sim = cfg(out, close, far);
+    do_boot(out, &mut sim, vec![vec![]]);
+    let pool = rng.range(3, 10);
+    let mut fresh = 0u64;
+    let mut shape = String::new();
+    let (mut deep_reorg, mut long, mut restarted, mut shorter) = (false, false, false, false);
+    for _ in 0..n_ops {
+        let tip = sim.chain.len() as u64 - 1;
+        match rng.below(20) {
+            0..=9 => {
+                let b = gen_block(rng, pool, &mut fresh);
+                do_switch(out, &mut sim, tip, &[b]);
+                out.count("extend");
+                shape.push('e');
+            }
+            10 => {
+                let k = rng.range(2, 4);
+                let bs: Vec<Vec<u64>> = (0..k).map(|_| gen_block(rng, pool, &mut fresh)).collect();
+                do_switch(out, &mut sim, tip, &bs);
+                out.count("extend-multi");
+                shape.push('m');
+            }
+            11..=15 => {
+                if tip == 0 {
+                    continue;
+                }
+                // depth relative to the window: around close, around far, beyond far, whole chain
+                let depth = match rng.below(6) {
+                    0 => 1,
+                    1 => rng.range(1, close + 1),
+                    2 => rng.range(close.saturating_sub(1).max(1), far + 1),
+                    3 => far + rng.range(0, 3),
+                    4 => tip,
+                    _ => rng.range(1, tip),
+                }
+                .min(tip)
+                .max(1);
+                let common = tip - depth;
+                // new branch: usually longer, sometimes equal or shorter (heavier but shorter)
+                let len = match rng.below(5) {
+                    0 => rng.range(1, depth),
+                    1 => depth,
+                    _ => depth + rng.range(1, 3),
+                };
+                let bs: Vec<Vec<u64>> = (0..len).map(|_| gen_block(rng, pool, &mut fresh)).collect();
+                do_switch(out, &mut sim, common, &bs);
+                out.count("reorg");
+                if len < depth {
+                    out.count("reorg-to-shorter");
+                    shorter = true;
+                }
+                if depth >= close {
+                    deep_reorg = true;
+                }
+                if depth > far {
+                    out.count("reorg-deeper-than-window");
+                }
+                shape.push_str(&format!("r{depth}/{len}"));
+            }
+            16 | 17 => {
+                if tip == 0 {
+                    continue;
+                }
+                let target = if rng.chance(1, 4) { 0 } else { rng.range(0, tip) };
+                do_switch(out, &mut sim, target, &[]);
+                out.count("truncate");
+                if target < tip {
+                    shorter = true;
+                }
+                shape.push_str(&format!("t{}", tip - target));
+            }
+            _ => {
+                do_restart(out, &mut sim);
+                out.count("restart");
+                restarted = true;
+                shape.push('R');
+            }
+        }
+        if sim.chain.len() as u64 > far + 2 {
+            long = true;
+        }
+    }
+    do_restart(out, &mut sim);
+    if deep_reorg && long && restarted && shorter {
+        out.nontrivial(format!("w={close},{far} {shape}"));
+    }
+}
+
+/// bounded-exhaustive short histories over a fixed op alphabet
+fn exhaustive(out: &mut Out, close: u64, far: u64, max_len: usize) {
+    // (depth, new branch length); depth 0 = extension; len 0 = truncation; (0,0) = restart
+    let alphabet: [(u64, u64); 10] = [(0, 1), (0, 2), (1, 1), (2, 1), (2, 3), (3, 2), (1, 0), (2, 0), (0, 0), (3, 4)];
+    let mut idx = vec![0usize; max_len];
+    for len in 1..=max_len {
+        for i in idx.iter_mut() {
+            *i = 0;
+        }
+        'seqs: loop {
+            // run idx[0..len]
+            let label: Vec<String> = idx[..len].iter().map(|i| format!("{}/{}", alphabet[*i].0, alphabet[*i].1)).collect();
+            out.begin_case(&format!("exhaustive w={close},{far} {}", label.join(" ")));
+            let mut sim = cfg(out, close, far);
+            // start from a chain of three blocks so that the reorg ops are applicable early
+            do_boot(out, &mut sim, vec![vec![], vec![1], vec![2, 1]]);
+            let mut next_id = 10u64;
+            let mut nt = false;
+            for i in &idx[..len] {
+                let (depth, blen) = alphabet[*i];
+                let tip = sim.chain.len() as u64 - 1;
+                if depth == 0 && blen == 0 {
+                    do_restart(out, &mut sim);
+                    out.count("x-restart");
+                    continue;
+                }
+                if depth > tip {
+                    continue;
+                }
+                let bs: Vec<Vec<u64>> = (0..blen)
+                    .map(|j| {
+                        next_id += 1;
+                        // one fresh id, and one id shared with other blocks
+                        vec![next_id, 1 + (j + depth) % 3]
+                    })
+                    .collect();
+                do_switch(out, &mut sim, tip - depth, &bs);
+                out.count("x-switch");
+                if depth >= 2 {
+                    nt = true;
+                }
+            }
+            do_restart(out, &mut sim);
+            if nt {
+                out.nontrivial(format!("x w={close},{far} {}", label.join(" ")));
+            }
+            // next sequence
+            let mut k = len;
+            loop {
+                if k == 0 {
+                    break 'seqs;
+                }
+                k -= 1;
+                idx[k] += 1;
+                if idx[k] < alphabet.len() {
+                    break;
+                }
+                idx[k] = 0;
+            }
+        }
+    }
+}
+
+/// arbitrary raw op sequences on the table (no chain behind them): model/implementation diff only
+fn raw_case(out: &mut Out, rng: &mut Rng, n_ops: usize) {
+    let wins: [(u64, u64); 5] = [(1, 2), (2, 4), (1, 1), (2, 10), (3, 5)];
+    let (close, far) = *rng.pick(&wins);
+    out.begin_case(&format!("raw w={close},{far}"));
+    let mut sim = cfg(out, close, far);
+    let span = far + 6;
+    for _ in 0..n_ops {
+        match rng.below(10) {
+            0..=4 => {
+                let n = rng.below(span);
+                let k = rng.below(4);
+                let ids: Vec<u64> = (0..k).map(|_| rng.below(8)).collect();
+                let new = sim.table.insert(n, to_set(&ids));
+                out.op(&format!("insert {} {}", n, show_list(&ids)), if new { "new" } else { "replaced" });
+                out.count("raw-insert");
+            }
+            5 | 6 => {
+                let n = rng.below(span);
+                let r = sim.table.remove(n);
+                out.op(&format!("remove {n}"), &match r {
+                    Some(ids) => format!("some {}", show_ids(ids.iter())),
+                    None => "none".into(),
+                });
+                out.count("raw-remove");
+            }
+            7 => {
+                sim.view = ProposalView::default();
+                out.op("view-reset", "ok");
+            }
+            _ => {
+                let n = rng.below(span);
+                let removed = sim.finalize(n);
+                out.op(&format!("finalize {n}"), &sim.view_line(Some(&removed)));
+                out.count("raw-finalize");
+            }
+        }
+    }
+}
+
+fn replay(out: &mut Out, ops: &[String]) {
+    let mut sim = Sim::new(TX_PROPOSAL_WINDOW);
+    for line in ops {
+        let t: Vec<&str> = line.split_whitespace().collect();
+        match t[0] {
+            "case" => {
+                out.begin_case(&t[2..].join(" "));
+                sim = Sim::new(TX_PROPOSAL_WINDOW);
+            }
+            "cfg" => {
+                let (c, f) = if t[1] == "default" { (TX_PROPOSAL_WINDOW.closest(), TX_PROPOSAL_WINDOW.farthest()) } else { (t[1].parse().unwrap(), t[2].parse().unwrap()) };
+                sim = Sim::new(ProposalWindow(c, f));
+                out.op(line, &format!("ok {c} {f}"));
+            }
+            "insert" => {
+                let new = sim.table.insert(t[1].parse().unwrap(), to_set(&parse_ids(t[2])));
+                out.op(line, if new { "new" } else { "replaced" });
+            }
+            "remove" => {
+                let r = sim.table.remove(t[1].parse().unwrap());
+                out.op(line, &match r {
+                    Some(ids) => format!("some {}", show_ids(ids.iter())),
+                    None => "none".into(),
+                });
+            }
+            "finalize" => {
+                let removed = sim.finalize(t[1].parse().unwrap());
+                out.op(line, &sim.view_line(Some(&removed)));
+            }
+            "view-reset" => {
+                sim.view = ProposalView::default();
+                out.op(line, "ok");
+            }
+            "boot" => {
+                let chain: Vec<Vec<u64>> = t[1..].iter().map(|s| parse_ids(s)).collect();
+                assert!(!chain.is_empty(), "boot needs a genesis block");
+                do_boot(out, &mut sim, chain);
+            }
+            "switch" => {
+                let common: u64 = t[1].parse().unwrap();
+                assert!((common as usize) < sim.chain.len(), "switch: common above tip");
+                let bs: Vec<Vec<u64>> = t[2..].iter().map(|s| parse_ids(s)).collect();
+                do_switch(out, &mut sim, common, &bs);
+            }
+            "restart" => do_restart(out, &mut sim),
+            other => panic!("C20 replay: unknown op {other}"),
+        }
+    }
+}
+
+pub fn run(opts: &Opts) {
+    let mut out = Out::new(&opts.out);
+    if let Some(p) = &opts.replay {
+        let ops = read_replay_ops(p);
+        replay(&mut out, &ops);
+        out.finish("replay");
+        return;
+    }
+    let mut rng = Rng::new(opts.seed);
+    let (hist, raw, hist_ops, xlen) = if opts.thorough() { (6000, 3000, 60, 5) } else { (600, 400, 40, 4) };
+    let scale = opts.scale as usize;
+    // the default window as generated for the model, once
+    out.begin_case("default-window");
+    let d = TX_PROPOSAL_WINDOW;
+    out.op("cfg default", &format!("ok {} {}", d.closest(), d.farthest()));
+    exhaustive(&mut out, 1, 2, xlen);
+    exhaustive(&mut out, 2, 3, xlen);
+    if opts.thorough() {
+        exhaustive(&mut out, 2, 4, xlen - 1);
+        exhaustive(&mut out, 1, 1, xlen - 1);
+    }
+    for _ in 0..hist * scale {
+        history_case(&mut out, &mut rng, hist_ops);
+    }
+    for _ in 0..raw * scale {
+        raw_case(&mut out, &mut rng, 30);
+    }
+    // excluded point of the theorems (a genesis block with proposal ids), recorded, not judged
+    {
+        let mut sim = Sim::new(TX_PROPOSAL_WINDOW);
+        sim.chain = vec![vec![7], vec![1], vec![2]];
+        sim.init();
+        out.extra.insert(
+            "genesis_with_proposals_point".into(),
+            format!("init on chain [7],[1],[2] with the default window: set={} gap={} (the commit verifier stops at genesis and would not accept 7); no chain spec builds such a genesis", show_ids(sim.view.set().iter()), show_ids(sim.view.gap().iter())).into(),
+        );
+    }
+    out.finish("history cases: contain a reorg of depth >= w_close, a chain longer than w_far+2, a restart and a move to a lower tip (distinct by window + op shape); exhaustive cases: contain a reorg of depth >= 2 (distinct by op sequence)");
 }
